@@ -117,7 +117,7 @@ theorem sizeLoopGroup_ok (s : List Nat) (d0 : Nat) (js : List Nat) (hd : d0 < s.
     · refine ⟨b, ?_, ?_⟩
       · unfold sizeLoopGroup
         rw [c1]
-        have : (s.getD j 0 != s.getD d0 0) = false := by simp [he]
+        have : (s.getD j 0 != s.getD d0 0) = false := by rw [he]; exact bne_self_eq_false _
         simp only [this, Bool.false_eq_true, if_false]
         exact hb1
       · rw [hb2]
@@ -125,7 +125,7 @@ theorem sizeLoopGroup_ok (s : List Nat) (d0 : Nat) (js : List Nat) (hd : d0 < s.
     · refine ⟨false, ?_, ?_⟩
       · unfold sizeLoopGroup
         rw [c1]
-        have : (s.getD j 0 != s.getD d0 0) = true := by simp [he]
+        have : (s.getD j 0 != s.getD d0 0) = true := bne_iff_ne.2 he
         simp only [this, Bool.false_eq_true, if_false, if_true]
       · simp only [Bool.false_eq_true, mem_cons, forall_eq_or_imp, he, false_and]
 
@@ -272,6 +272,105 @@ theorem symRowOld_spec [Field α] [LinearOrder α] [IsStrictOrderedRing α] (T :
   · simp [hd]
   · have : (T.data == Y.data) = false := by simpa using hd
     simp only [this, Bool.false_eq_true, if_false, maxAbsDiff_eq_zero _ _ hl]
+
+theorem ValidGroups.single {n : Nat} {grps : List (List Nat)} (V : ValidGroups n grps) {g : List Nat}
+    (hg : g ∈ grps) : ValidGroups n [g] :=
+  ⟨fun h hh => by simp only [mem_singleton] at hh; subst hh; exact V.1 h hg, by simp⟩
+
+theorem symRowsOld_spec [Field α] [LinearOrder α] [IsStrictOrderedRing α] (T : Dense α) (hT : T.WF) :
+    ∀ pairs : List (List Nat × List Nat),
+      (∀ gc ∈ pairs, (∀ m ∈ gc.1, m < T.shape.length) ∧
+        isPermOf (scatter (List.range T.shape.length) gc.1 gc.2) T.shape.length = true ∧
+        gather T.shape (scatter (List.range T.shape.length) gc.1 gc.2) = T.shape) →
+      ∃ rows, symRowsOld T pairs = .ok rows ∧
+        rows.map (·.2) = pairs.map (fun gc => scatter (List.range T.shape.length) gc.1 gc.2) ∧
+        ∀ r ∈ rows, (r.1 = 0 ↔ T.transpose r.2 = T) := by
+  intro pairs
+  induction pairs with
+  | nil => intro _; exact ⟨[], rfl, rfl, by simp⟩
+  | cons gc rest ih =>
+    intro h
+    obtain ⟨h1, h2, h3⟩ := h gc mem_cons_self
+    obtain ⟨d, hd1, hd2⟩ := symRowOld_spec T hT h1 h2 h3
+    obtain ⟨rows, hr1, hr2, hr3⟩ := ih (fun x hx => h x (mem_cons_of_mem _ hx))
+    refine ⟨(d, scatter (List.range T.shape.length) gc.1 gc.2) :: rows, ?_, ?_, ?_⟩
+    · simp only [symRowsOld, hd1, hr1]
+    · simp only [map_cons, hr2]
+    · intro r hr
+      rcases mem_cons.1 hr with rfl | hr
+      · exact hd2
+      · exact hr3 r hr
+
+/-- the permutation-based test: the answer is `IsSym`, the listed orders are, group by group, the
+identity with each permutation of the group written into it, and a listed difference is zero
+exactly when that order leaves the tensor unchanged. -/
+theorem issymmetricOld_spec [Field α] [LinearOrder α] [IsStrictOrderedRing α] (T : Dense α) (hT : T.WF)
+    {grps : List (List Nat)} (V : ValidGroups T.shape.length grps) (hs : SizesOK T.shape grps)
+    (details : Bool) :
+    ∃ (b : Bool) (diffs : List α) (perms : List (List Nat)),
+      issymmetricOld T grps details = .ok (if details then .details b diffs perms else .plain b) ∧
+      (b = true ↔ IsSym T grps) ∧
+      perms = (grps.flatMap fun g => (permsLex g).map fun c => scatter (List.range T.shape.length) g c) ∧
+      diffs.length = perms.length ∧
+      ∀ k (h1 : k < diffs.length) (h2 : k < perms.length), (diffs[k] = 0 ↔ T.transpose perms[k] = T) := by
+  obtain ⟨b0, hb01, hb02⟩ := sizeLoop_ok T.shape grps V.inRangeAll
+  have hb0 : b0 = true := hb02.2 hs
+  subst hb0
+  have hpairs : ∀ gc ∈ (grps.flatMap fun g => (permsLex g).map fun c => (g, c)),
+      (∀ m ∈ gc.1, m < T.shape.length) ∧
+        isPermOf (scatter (List.range T.shape.length) gc.1 gc.2) T.shape.length = true ∧
+        gather T.shape (scatter (List.range T.shape.length) gc.1 gc.2) = T.shape := by
+    intro gc hgc
+    simp only [mem_flatMap, mem_map] at hgc
+    obtain ⟨g, hg, c, hc, rfl⟩ := hgc
+    have hgv := V.1 g hg
+    have hmem : GroupPerm [g] T.shape.length (scatter (List.range T.shape.length) g c) :=
+      groupPerm_scatter hgv.1 hgv.2 (mem_permsLex.1 hc)
+    exact ⟨hgv.2, hmem.1, hmem.gather_shape (fun h hh => hs h (by simp only [mem_singleton] at hh; subst hh; exact hg))⟩
+  obtain ⟨rows, hr1, hr2, hr3⟩ := symRowsOld_spec T hT _ hpairs
+  have hperms : rows.map (·.2) =
+      (grps.flatMap fun g => (permsLex g).map fun c => scatter (List.range T.shape.length) g c) := by
+    rw [hr2, map_flatMap]
+    simp only [map_map, Function.comp_def]
+  refine ⟨(rows.map (·.1)).all (· == 0), rows.map (·.1), rows.map (·.2), ?_, ?_, hperms, by simp, ?_⟩
+  · simp only [issymmetricOld, hb01, hr1]
+  · rw [isSym_iff_forall T V hs]
+    simp only [all_eq_true, mem_map, beq_iff_eq, forall_exists_index, and_imp, forall_apply_eq_imp_iff₂]
+    constructor
+    · intro h g hg
+      rw [isSym_iff_transpose T hT]
+      intro p hp
+      have hpm : p ∈ (permsLex g).map fun c => scatter (List.range T.shape.length) g c :=
+        (perm_groupPerms_single (V.single hg)).symm.subset (mem_groupPerms.2 hp)
+      have hp2 : p ∈ rows.map (·.2) := by
+        rw [hperms, mem_flatMap]; exact ⟨g, hg, hpm⟩
+      obtain ⟨r, hr, rfl⟩ := mem_map.1 hp2
+      exact (hr3 r hr).1 (h r hr)
+    · intro h r hr
+      rw [hr3 r hr]
+      have hr2' : r.2 ∈ rows.map (·.2) := mem_map.2 ⟨r, hr, rfl⟩
+      rw [hperms, mem_flatMap] at hr2'
+      obtain ⟨g, hg, hpm⟩ := hr2'
+      have hp : GroupPerm [g] T.shape.length r.2 :=
+        mem_groupPerms.1 ((perm_groupPerms_single (V.single hg)).subset hpm)
+      exact (isSym_iff_transpose T hT [g]).1 (h g hg) r.2 hp
+  · intro k h1 h2
+    simp only [getElem_map]
+    exact hr3 _ (getElem_mem _)
+
+/-- a group with modes of different extents: the permutation-based test answers a bare `False`
+(also when details were requested). -/
+theorem issymmetricOld_unequal [Sub α] [Neg α] [LT α] [DecidableLT α] [Zero α] [Max α] [BEq α]
+    (T : Dense α) {grps : List (List Nat)} (hr : InRangeAll T.shape.length grps)
+    (hs : ¬ SizesOK T.shape grps) (details : Bool) :
+    issymmetricOld T grps details = .ok (.plain false) := by
+  obtain ⟨b0, hb01, hb02⟩ := sizeLoop_ok T.shape grps hr
+  have : b0 = false := by
+    cases b0 with
+    | false => rfl
+    | true => exact absurd (hb02.1 rfl) hs
+  subst this
+  simp only [issymmetricOld, hb01]
 
 end Sym
 end Pyttb
